@@ -498,6 +498,15 @@ def _cap_and_policy(prog: Program, res: Result, lb: int):
         c = st.facts.get(cont)
         what = "smallest field already oversized" if unmet_small else "largest allowed field fails"
         where = prog.loc(fi, st.exit[2]) if st.exit else prog.loc(fi, fi.node)
+        # "no candidate can meet the limits" has to be ESTABLISHED before the policy applies: both brackets (in height on the
+        # smallest field, in field size at max height) examined and found absent on this path
+        okb = _no_bracket(st, 2)
+        res.ob("R02.3", f"[{what}] the unmet-design branch is reached only after both brackets were examined and found absent", okb, where)
+        if not okb:
+            res.violation("R02.3", f"escape-before-brackets|{what}", where, q,
+                          f"[{what}] the search leaves by the unmet-design branch on a path that has not examined both brackets: when the smallest field meets the limits and the "
+                          "largest allowed one does not (a non-monotone excess), a candidate that was just found feasible is ignored - the run ends with an error or the largest field",
+                          path=describe_trail(st))
         if c is True:
             ok = p.exit_kind == "return"
             init = p.inits()[-1].data if p.inits() else None
